@@ -299,10 +299,11 @@ func (r *AvPacket2RtmpRemuxer) FeedAvPacket(pkt base.AvPacket) {
 				r.hasAdts2Asc = true
 			}
 
-			length := len(pkt.Payload) - 5 // -7+2
-			if length < 7 {
+			// 只有adts头没有数据的包丢弃
+			if len(pkt.Payload) <= 7 {
 				return
 			}
+			length := len(pkt.Payload) - 5 // -7+2
 			payload := make([]byte, length)
 			payload[0] = 0xAF
 			payload[1] = base.RtmpAacPacketTypeRaw
